@@ -135,6 +135,8 @@ func Load(repo string, cfg Config, overlay map[string][]byte) *Ctx {
 		}
 		return c.Funcs[i].String() < c.Funcs[j].String()
 	})
+	renamedAnchors = nil
+	c.matchRenamedTypes()
 	for _, fn := range c.Funcs {
 		c.fnByName[c.FnName(fn)] = fn
 	}
@@ -183,7 +185,7 @@ func (c *Ctx) FnName(fn *ssa.Function) string {
 		pk = shortPkg(fn.Pkg.Pkg.Path())
 	}
 	if recv := fn.Signature.Recv(); recv != nil {
-		return pk + ".(" + types.TypeString(recv.Type(), func(*types.Package) string { return "" }) + ")." + fn.Name()
+		return pk + ".(" + canonTypeNames(types.TypeString(recv.Type(), func(*types.Package) string { return "" })) + ")." + fn.Name()
 	}
 	return pk + "." + fn.Name()
 }
@@ -258,6 +260,13 @@ func (c *Ctx) Named(pkg, name string) *types.Named {
 	}
 	o := tp.Scope().Lookup(name)
 	if o == nil {
+		for tn, old := range typeAlias {
+			if old == name && tn.Pkg() == tp {
+				o = tn // matched as the renamed form of a recorded type (anchors.go)
+			}
+		}
+	}
+	if o == nil {
 		return nil
 	}
 	n, _ := o.Type().(*types.Named)
@@ -318,12 +327,12 @@ func FieldByType(n *types.Named, typ string) *types.Var {
 }
 
 func typeStr(t types.Type) string {
-	return types.TypeString(t, func(p *types.Package) string {
+	return canonTypeNames(types.TypeString(t, func(p *types.Package) string {
 		if strings.HasPrefix(p.Path(), modPath) {
 			return ""
 		}
 		return p.Name()
-	})
+	}))
 }
 
 // namedOf strips pointers and returns the named type, or nil.
@@ -345,7 +354,7 @@ func namedOf(t types.Type) *types.Named {
 
 func isNamed(t types.Type, pkgSuffix, name string) bool {
 	n := namedOf(t)
-	if n == nil || n.Obj().Name() != name {
+	if n == nil || objName(n.Obj()) != name {
 		return false
 	}
 	if n.Obj().Pkg() == nil {
@@ -387,7 +396,7 @@ func fieldKey(owner *types.Named, f *types.Var) string {
 	if owner == nil {
 		return "?." + recordedFieldName(f)
 	}
-	return owner.Obj().Name() + "." + recordedFieldName(f)
+	return objName(owner.Obj()) + "." + recordedFieldName(f)
 }
 
 // loadedField: if v is a load (*addr) of a struct field (or a Field extraction), report it.
